@@ -615,6 +615,30 @@ def stepBatch (st : State) (toks : List String) : State × String :=
     let bad := used.any fun s => s == "e" || (s.splitOn "+").contains "x"
     let n := (used.map fun s => if s == "" || s == "_" then 0 else (s.splitOn "+").length).sum
     (st, if bad then "closed=true err=true" else "closed=true err=false n=" ++ toString n)
+  | "ls.run" :: _ =>
+    -- a list over the shards: the union of what the per-shard streams deliver, one error per failing shard;
+    -- the shards are drained one after the other here (any other order gives a permutation: `C20_list_union`)
+    let shards := (get "shards").splitOn ";"
+    let used := if get "single" == "1" then shards.take 1 else shards
+    let parse : String → Option (List (Option (List String))) := fun s =>
+      if s == "e" then none else if s == "" || s == "_" then some []
+      else some ((s.splitOn "+").map fun it => if it == "x" then none else some (it.splitOn "."))
+    let streams := used.map fun s => Batch.shardResults (parse s)
+    let sched := (List.range streams.length).flatMap fun i => List.replicate (streams.getD i []).length i
+    let (keys, errs) := Batch.listSummary (Batch.runSched streams sched).1
+    (st, "closed=true errs=" ++ toString errs ++ " keys=" ++ (if keys.isEmpty then "_" else String.intercalate "," keys))
+  | "ls.cancel" :: _ =>
+    -- the caller cancels after the first result of every shard: every stream ends with the cancellation error.
+    -- fact: the channel is closed only after every shard goroutine has returned; otherwise a shard sends on the
+    -- closed channel
+    match (get "shards").toNat? with
+    | some k =>
+      if !Facts.listClosesChannelAfterAllShards then (st, "panic: send on closed channel") else
+      let streams := (List.range k).map fun i => Batch.shardResults (some [some ["k" ++ toString i], none])
+      let sched := (List.range k) ++ (List.range k)
+      let (keys, errs) := Batch.listSummary (Batch.runSched streams sched).1
+      (st, "closed=true errs=" ++ toString errs ++ " keys=" ++ String.intercalate "," keys)
+    | none => (st, "bad-op")
   | "ws.run" :: _ =>
     let toks : List Batch.WTok := ((get "script").splitOn ",").filterMap fun t =>
       if t == "r" then some .resp else if t == "x" then some .brk
@@ -969,7 +993,7 @@ def step (st : State) (line : String) : State × String :=
     else if t.startsWith "c." then stepCluster st toks
     else if t.startsWith "s." then stepSess st toks
     else if t.startsWith "q." || t.startsWith "lc." then stepAck st toks
-    else if t.startsWith "b." || t.startsWith "wb." || t.startsWith "rb." || t.startsWith "mg." || t.startsWith "km." || t.startsWith "ws." || t.startsWith "rs." then stepBatch st toks
+    else if t.startsWith "b." || t.startsWith "wb." || t.startsWith "rb." || t.startsWith "mg." || t.startsWith "km." || t.startsWith "ws." || t.startsWith "rs." || t.startsWith "ls." then stepBatch st toks
     else (st, "bad-op")
 
 end Oxia.Driver
